@@ -2,60 +2,61 @@
  *
  * Real code: KSI_PublicationsFile_parse, generateNextTlv and the KSI_PublicationsFile template rows
  * (publicationsfile.c, included below), the template engine (tlv_template.c: extractGenerator, extractComposite,
- * extractObject, storeObjectValue), tlv.c (KSI_TLV_parseBlob2, nested parsing), fast_tlv.c (KSI_FTLV_memRead),
- * list.c, the record constructors/destructors (types.c), KSI_PKISignature_fromTlv (pkitruststore.c),
- * KSI_PublicationsFile_verify.
- * Stubbed: (1) the INTERNALS of header / certificate / publication records - the three sub-template names
- * used by the top-level template rows are redirected to one-row stub templates (record internals are the
- * subject of C10), (2) PKCS#7 parsing and verification (env/c18_pki_model.c: "DER parses" and the verdict are
- * symbolic outcomes).
+ * extractObject, storeObjectValue), tlv.c (KSI_TLV_parseBlob2, nested parsing; included below), list.c, the
+ * record constructors / destructors (types.c), KSI_PKISignature_fromTlv (pkitruststore.c),
+ * KSI_PublicationsFile_getSignedDataLength, KSI_PublicationsFile_verify.
+ * Stubbed / cut:
+ *  (1) the INTERNALS of header / certificate / publication records: the three sub-template names used by the
+ *      top-level template rows are redirected to one-row stub templates (record internals are C10's subject);
+ *  (2) PKCS#7 parsing and verification (env/c18_pki_model.c: "DER parses" and the verdict are symbolic);
+ *  (3) the byte-level header decoder KSI_FTLV_memRead is cut WITH a proof obligation (see cut_memRead).
  *
- * Input = magic (8 symbolic bytes) + NREC records + TRAIL trailing bytes, minus CUT bytes cut off the end.
- * Concrete per instance: NREC, per record the header form (TLV16 with tag 0x07xx / TLV8 with tag 0x05), the
- * N (non-critical) and F flags, the payload length; symbolic: the low tag byte of every TLV16 record (so every
- * sequence over {0x0701 header, 0x0702 certificate, 0x0703 publication, 0x0704 signature, 0x0700/0x0705..0x07ff
- * unknown} is covered by one query), all payload bytes, the magic.  (The first header byte has to be concrete:
- * it decides the header length, and CBMC needs concrete lengths.)
- * A non-empty payload is one nested element "0x5f len bytes.." (non-critical, unknown to the stub templates),
- * so it is acceptable as content of a composite record, as signature bytes and as unknown record alike.
+ * One instance = a group of CASES, run one after the other.  A case is a CONCRETE sequence of record kinds
+ * (CBMC cannot merge the allocation-heavy parse paths of different tag sequences: a symbolic tag did not finish
+ * in 25 minutes for two records); within a case the non-critical and forward flag of every record, all payload
+ * bytes and the 8 magic bytes are symbolic.  Record kinds: 1 header 0x0701, 2 certificate 0x0702,
+ * 3 publication 0x0703, 4 signature 0x0704, 5 unknown 0x0705, 6 unknown 0x0700, 7 unknown TLV8 tag 0x05,
+ * 8 unknown 0x0801.  Payload lengths follow a fixed rotation (3,2,4,5 bytes; 0 where the case says so); a non-empty payload is one
+ * nested element "0x5f len bytes.." (non-critical, unknown to the stub templates), acceptable as content of a
+ * composite record, as signature bytes and as unknown record alike.  A case may add one trailing byte or cut
+ * bytes off the end.
  *
- * Reference (from the property text / file format, over the tag sequence):
+ * Reference (from the property text / file format, over the kind sequence):
  *   phases: 0 start -> header -> 1 -> (certificates)* -> (publications)* 2 -> signature -> 3 end
  *   header: only in phase 0; certificate: only in phase 1; publication: phase 1 or 2; signature: phase 1 or 2;
  *   unknown tag: ignored if flagged non-critical (any phase before 3), otherwise refused; nothing at all after
- *   the signature; accepted iff magic is "KSIPUBLF", the records tile the input exactly, the final phase is 3
- *   and the signature bytes are non-empty and parse (model outcome);
+ *   the signature; accepted iff the magic is "KSIPUBLF", the records tile the input exactly, the final phase
+ *   is 3 and the signature bytes are non-empty and parse (model outcome);
  *   signedDataLength = 8 + total size of the records before the signature record.
- *   One deviation is checked separately (see FINDINGS.md): a REPEATED header record flagged non-critical. */
+ *   One deviation is checked separately (FINDINGS.md): a REPEATED header record flagged non-critical. */
 #include "verif.h"
 #include "internal.h"
 #include "impl/publicationsfile_impl.h"
 #include "impl/ctx_impl.h"
 #include "tlv_template.h"
+#include "fast_tlv.h"
 #include "ctx.h"
 #include "c18_pki_model.h"
 #include "verif_post.h"
 
 /* ---- stub sub-templates (record internals) ---- */
-static unsigned stub_hits;
 static int stub_get(const void *o, void **v) { (void)o; *v = NULL; return KSI_OK; }
 static int stub_set(void *o, void *v) { (void)o; (void)v; return KSI_OK; }
-static int stub_fromTlv(KSI_TLV *tlv, void **o) { (void)tlv; stub_hits++; *o = NULL; return KSI_OK; }
+static int stub_fromTlv(KSI_TLV *tlv, void **o) { (void)tlv; *o = NULL; return KSI_OK; }
 static void stub_free(void *o) { (void)o; }
 #define STUB_TEMPLATE(name) const KSI_TlvTemplate name[] = { \
 	KSI_TLV_OBJECT(0x01, KSI_TLV_TMPL_FLG_NONE, stub_get, stub_set, stub_fromTlv, NULL, stub_free, "stub") KSI_END_TLV_TEMPLATE
 STUB_TEMPLATE(C18_stub_header_template)
 STUB_TEMPLATE(C18_stub_cert_template)
 STUB_TEMPLATE(C18_stub_pub_template)
+
 /* ---- cut with proof obligation: the byte-level header decoder (README lesson 12) ----
- * Branches on symbolic header bytes make every later length path dependent and the allocate / recurse / clean-up
- * code of tlv.c and publicationsfile.c intractable.  All calls of KSI_FTLV_memRead made by tlv.c and
- * publicationsfile.c (both included below as text) are redirected to cut_memRead, which runs the REAL
+ * The first header byte carries the symbolic N/F flags next to the bit that selects the header form, so for
+ * CBMC every length would be path dependent.  All calls of KSI_FTLV_memRead made by tlv.c and
+ * publicationsfile.c (both included as text) are redirected to cut_memRead, which runs the REAL
  * KSI_FTLV_memRead (fast_tlv.c, linked) on the same arguments, CHECKs that it reports exactly the header and
- * payload lengths this instance put at that position (or the expected refusal), and returns those CONSTANT
- * lengths together with the real, symbolic tag and flags.  (KSI_FTLV_memRead itself is proved against the
- * format for all inputs by C09.) */
-#include "fast_tlv.h"
+ * tag, header and payload lengths this case put at that position (or the expected refusal), and returns those
+ * CONSTANTS together with the real, symbolic flags.  (KSI_FTLV_memRead is proved against the format by C09.) */
 static int cut_memRead(const unsigned char *m, size_t l, KSI_FTLV *t);
 #define KSI_FTLV_memRead cut_memRead
 #include "tlv.c"
@@ -68,140 +69,112 @@ static int cut_memRead(const unsigned char *m, size_t l, KSI_FTLV *t);
 #undef KSI_PublicationRecord_template
 #undef KSI_FTLV_memRead
 
-#ifndef NREC
-#define NREC 2
-#endif
-#ifndef FORMS
-#define FORMS {16, 16, 16, 16}      /* 16: TLV16 record with tag 0x07xx (xx symbolic); 8: TLV8 record with tag 0x05 */
-#endif
-#ifndef NFLAGS
-#define NFLAGS {-1, -1, -1, -1}     /* non-critical flag per record: 0 / 1 concrete, -1 symbolic */
-#endif
-#ifndef FFLAGS
-#define FFLAGS {-1, -1, -1, -1}     /* forward flag per record: 0 / 1 concrete, -1 symbolic */
-#endif
-#ifndef PLENS
-#define PLENS {3, 2, 4, 3}          /* payload length per record: 0 or >= 2 */
-#endif
-#ifndef TAGS
-#define TAGS {-1, -1, -1, -1}       /* low tag byte per TLV16 record: -1 symbolic, else that concrete value */
-#endif
-#ifndef TRAIL
-#define TRAIL 0                     /* bytes after the last record */
-#endif
-#ifndef CUT
-#define CUT 0                       /* bytes cut off the end of the input (truncated last record) */
-#endif
-#define MAXREC 4
+#define MAXREC 6
 #define MAXBUF 64
+struct c18_case { int n; int kind[MAXREC]; int trail; int cut; int empty_mask; };   /* empty_mask bit i: record i has no payload */
+#ifndef CASES
+#define NCASES 2
+#define CASES {{2, {1, 4}, 0, 0, 0}, {4, {1, 2, 3, 4}, 0, 0, 0}}
+#endif
+static const struct c18_case cases[NCASES] = CASES;
+static const int plrot[4] = {3, 2, 4, 5};
 
-static const int form[MAXREC] = FORMS, nfl_c[MAXREC] = NFLAGS, ffl_c[MAXREC] = FFLAGS, plen[MAXREC] = PLENS, ctag[MAXREC] = TAGS;
-
-static const u8 *cut_raw;                 /* the input object */
-static unsigned cut_off[MAXREC + 1];      /* offset (from the start of the input) of record i; [NREC] = end of the records */
-static unsigned cut_cur;                  /* record whose private copy is being parsed */
-static unsigned cut_calls;
+/* state of the case in progress, read by the cut */
+static const u8 *cur_raw; static unsigned cur_n, cur_off[MAXREC + 1], cur_hdr[MAXREC], cur_pl[MAXREC], cur_tag[MAXREC], cur_rec;
 static int cut_memRead(const unsigned char *m, size_t l, KSI_FTLV *t) {
 #ifdef REPLAY
 	return KSI_FTLV_memRead(m, l, t);
 #else
 	KSI_FTLV real;
 	int res = KSI_FTLV_memRead(m, l, &real);
-	unsigned e_hdr = 0, e_dat = 0; int known = 0;
-	cut_calls++;
-	if (__CPROVER_same_object(m, cut_raw)) {
-		/* generateNextTlv reading the next record of the input */
-		size_t o = __CPROVER_POINTER_OFFSET(m);
-		for (unsigned i = 0; i < NREC; i++) if (o == cut_off[i]) { known = 1; cut_cur = i; e_hdr = (form[i] == 16) ? 4 : 2; e_dat = (unsigned)plen[i]; }
-		/* o == cut_off[NREC]: trailing bytes, never a complete element in this harness (TRAIL <= 1) */
+	unsigned e_hdr = 0, e_dat = 0, e_tag = 0; int known = 0;
+	size_t o = __CPROVER_POINTER_OFFSET(m);
+	if (__CPROVER_same_object(m, cur_raw)) {
+		/* generateNextTlv reads the next record of the input (o == cur_off[cur_n]: the trailing byte) */
+		for (unsigned i = 0; i < MAXREC; i++) if (i < cur_n && o == cur_off[i]) { known = 1; cur_rec = i; e_hdr = cur_hdr[i]; e_dat = cur_pl[i]; e_tag = cur_tag[i]; }
 	} else {
-		/* tlv.c reading from the private copy of record cut_cur: offset 0 = the record itself, offset = its header length = its nested element */
-		size_t o = __CPROVER_POINTER_OFFSET(m);
-		unsigned rh = (form[cut_cur] == 16) ? 4 : 2;
-		if (o == 0) { known = 1; e_hdr = rh; e_dat = (unsigned)plen[cut_cur]; }
-		else if (o == rh && plen[cut_cur] >= 2) { known = 1; e_hdr = 2; e_dat = (unsigned)plen[cut_cur] - 2; }
+		/* tlv.c reads from the private copy of record cur_rec: offset 0 = the record, offset = its header length = its nested element */
+		if (o == 0) { known = 1; e_hdr = cur_hdr[cur_rec]; e_dat = cur_pl[cur_rec]; e_tag = cur_tag[cur_rec]; }
+		else if (o == cur_hdr[cur_rec] && cur_pl[cur_rec] >= 2) { known = 1; e_hdr = 2; e_dat = cur_pl[cur_rec] - 2; e_tag = 0x1f; }
 	}
 	int e_ok = known && l >= e_hdr + e_dat;
-	CHECK(known || (l < 2), "C18.H1 [cut] every position the TLV reader is applied to is a record, its copy, its nested element or a single trailing byte");
+	CHECK(known || l < 2, "C18.H1 [cut] every position the TLV reader is applied to is a record, its copy, its nested element or a single trailing byte");
 	CHECK((res == KSI_OK) == e_ok && (res == KSI_OK || res == KSI_INVALID_FORMAT), "C18.H1 [cut] KSI_FTLV_memRead accepts exactly the complete elements of the generated input");
-	if (res == KSI_OK) CHECK(real.off == 0 && real.hdr_len == e_hdr && real.dat_len == e_dat, "C18.H1 [cut] KSI_FTLV_memRead reports the header and payload length generated at this position");
+	if (res == KSI_OK) CHECK(real.off == 0 && real.hdr_len == e_hdr && real.dat_len == e_dat && real.tag == e_tag, "C18.H1 [cut] KSI_FTLV_memRead reports the tag, header and payload length generated at this position");
 	if (!e_ok) return KSI_INVALID_FORMAT;
 	t->off = 0; t->hdr_len = e_hdr; t->dat_len = e_dat;
-	t->tag = real.tag; t->is_nc = real.is_nc; t->is_fwd = real.is_fwd;
+	t->tag = e_tag; t->is_nc = real.is_nc; t->is_fwd = real.is_fwd;
 	return KSI_OK;
 #endif
 }
 
-void harness(void) {
-	VERIF_ctx_init(); VERIF_pki_init();
-	KSI_CTX *ctx = VERIF_ctx;
+static void run_case(KSI_CTX *ctx, const struct c18_case *c, unsigned ci) {
 	u8 buf[MAXBUF]; unsigned n = 0;
-	unsigned tag[MAXREC], off[MAXREC], size[MAXREC]; int nfl[MAXREC], ffl[MAXREC];
+	unsigned off[MAXREC], size[MAXREC]; int nfl[MAXREC];
 	static const char magic[8] = {'K', 'S', 'I', 'P', 'U', 'B', 'L', 'F'};
 	int magic_ok = 1;
+	VERIF_pki_init();
 	for (unsigned i = 0; i < 8; i++) { buf[n] = ND(u8, magic_byte); if (buf[n] != (u8)magic[i]) magic_ok = 0; n++; }
-	for (unsigned i = 0; i < NREC; i++) {
-		off[i] = n - 8;
-		nfl[i] = (nfl_c[i] >= 0) ? nfl_c[i] : (int)ND_BOOL(noncritical_flag);
-		ffl[i] = (ffl_c[i] >= 0) ? ffl_c[i] : (int)ND_BOOL(forward_flag);
-		if (form[i] == 16) {
-			u8 lo = (ctag[i] >= 0) ? (u8)ctag[i] : ND(u8, tag_low);
-			buf[n++] = (u8)(0x80 | (nfl[i] ? 0x40 : 0) | (ffl[i] ? 0x20 : 0) | 0x07);
-			buf[n++] = lo; buf[n++] = 0; buf[n++] = (u8)plen[i];
-			tag[i] = 0x0700u | lo;
-		} else {
-			buf[n++] = (u8)((nfl[i] ? 0x40 : 0) | (ffl[i] ? 0x20 : 0) | 0x05);
-			buf[n++] = (u8)plen[i];
-			tag[i] = 0x05;
+	for (unsigned i = 0; i < MAXREC; i++) if ((int)i < c->n) {
+		int k = c->kind[i];
+		unsigned pl = ((c->empty_mask >> i) & 1) ? 0 : (unsigned)plrot[(ci + i) % 4];
+		unsigned fl = (ND_BOOL(noncritical_flag) ? 0x40u : 0u) | (ND_BOOL(forward_flag) ? 0x20u : 0u);
+		off[i] = n - 8; nfl[i] = (fl & 0x40) != 0;
+		if (k == 7) { buf[n++] = (u8)(fl | 0x05); buf[n++] = (u8)pl; cur_hdr[i] = 2; cur_tag[i] = 0x05; }
+		else {
+			unsigned tag = (k >= 1 && k <= 5) ? 0x0700u + (unsigned)k : (k == 6) ? 0x0700u : 0x0801u;
+			buf[n++] = (u8)(0x80 | fl | (tag >> 8)); buf[n++] = (u8)(tag & 0xff); buf[n++] = 0; buf[n++] = (u8)pl; cur_hdr[i] = 4; cur_tag[i] = tag;
 		}
-		if (plen[i] >= 2) {
-			buf[n++] = 0x5f; buf[n++] = (u8)(plen[i] - 2);
-			for (int k = 2; k < plen[i]; k++) buf[n++] = ND(u8, payload_byte);
-		}
-		size[i] = n - 8 - off[i];
+		if (pl >= 2) { buf[n++] = 0x5f; buf[n++] = (u8)(pl - 2); for (unsigned j = 2; j < pl; j++) buf[n++] = ND(u8, payload_byte); }
+		cur_pl[i] = pl; size[i] = n - 8 - off[i]; cur_off[i] = 8 + off[i];
 	}
-	for (unsigned i = 0; i < TRAIL; i++) buf[n++] = ND(u8, trailing_byte);
-	const unsigned total = n - CUT;
+	cur_n = (unsigned)c->n; cur_off[c->n] = n; cur_rec = 0;
+	for (int i = 0; i < c->trail; i++) buf[n++] = ND(u8, trailing_byte);
+	const unsigned total = n - (unsigned)c->cut;
 	u8 *raw = verif_buf_alloc(total);           /* exact-size input object */
 	for (unsigned i = 0; i < MAXBUF; i++) if (i < total) raw[i] = buf[i];
-	cut_raw = raw; cut_cur = 0; cut_calls = 0;
-	for (unsigned i = 0; i < NREC; i++) cut_off[i] = 8 + off[i];
-	cut_off[NREC] = 8 + (NREC ? off[NREC - 1] + size[NREC - 1] : 0);
+	cur_raw = raw;
 
-	/* ---- reference: grammar over the tag sequence ---- */
+	/* ---- reference: grammar over the kind sequence ---- */
 	int phase = 0, bad = 0, dup_nc_header = 0; unsigned ncert = 0, npub = 0, sig_idx = MAXREC;
-	for (unsigned i = 0; i < NREC; i++) {
+	for (unsigned i = 0; i < MAXREC; i++) if ((int)i < c->n) {
 		if (phase == 3) { bad = 1; continue; }                 /* nothing after the signature */
-		switch (tag[i]) {
-			case 0x0701:
+		switch (c->kind[i]) {
+			case 1:
 				if (phase == 0) phase = 1;
 				else if (nfl[i]) dup_nc_header = 1;                /* separately checked deviation */
 				else bad = 1;
 				break;
-			case 0x0702: if (phase == 1) ncert++; else bad = 1; break;
-			case 0x0703: if (phase == 1 || phase == 2) { phase = 2; npub++; } else bad = 1; break;
-			case 0x0704: if (phase == 1 || phase == 2) { phase = 3; sig_idx = i; } else bad = 1; break;
+			case 2: if (phase == 1) ncert++; else bad = 1; break;
+			case 3: if (phase == 1 || phase == 2) { phase = 2; npub++; } else bad = 1; break;
+			case 4: if (phase == 1 || phase == 2) { phase = 3; sig_idx = i; } else bad = 1; break;
 			default: if (!nfl[i]) bad = 1; break;                  /* unknown: only tolerated when non-critical */
 		}
 	}
-	const int tiles = (TRAIL == 0 && CUT == 0);                /* TRAIL = 1 byte can never be a record; CUT truncates one */
+	const int tiles = (c->trail == 0 && c->cut == 0);          /* one trailing byte can never be a record; a cut truncates one */
 	const int structure_ok = magic_ok && tiles && !bad && phase == 3;
-	const int sig_nonempty = (sig_idx < MAXREC) && plen[sig_idx < MAXREC ? sig_idx : 0] > 0;
+	const int sig_nonempty = (sig_idx < MAXREC) && cur_pl[sig_idx < MAXREC ? sig_idx : 0] > 0;
 
 	KSI_PublicationsFile *pf = NULL;
-	unsigned sig_new0 = VERIF_pki_sig_new_calls;
 	int res = KSI_PublicationsFile_parse(ctx, raw, total, &pf);
-	/* did the model accept the signature bytes?  (it is asked at most once: there is at most one signature record) */
-	const int der_ok = (VERIF_pki_sig_der_ok == 1);
+	const int der_ok = (VERIF_pki_sig_der_ok == 1);            /* the model's choice, if it was asked */
 
 	if (!dup_nc_header) {
 		if (!structure_ok) {
-			CHECK(res != KSI_OK && pf == NULL, "C18.H1 a file that is not magic + header, certificates*, publications*, signature (unknown non-critical records tolerated, nothing after the signature) is refused");
-			if (magic_ok && tiles && NREC > 0) WITNESS_POINT("wrong record order refused");
+			CHECK(res != KSI_OK && pf == NULL, "C18.H1 a file that is not magic + header, certificates*, publications*, signature (unknown non-critical records tolerated, nothing after the signature, exact tiling) is refused");
+#ifdef W_BADSEQ
+			if (magic_ok && tiles && c->n > 0) WITNESS_POINT("wrong record sequence refused");
+#endif
+#ifdef W_MAGIC
+			if (!magic_ok && !bad && phase == 3) WITNESS_POINT("wrong magic refused");
+#endif
+#ifdef W_TILING
+			if (magic_ok && !tiles && !bad && phase == 3) WITNESS_POINT("trailing byte or truncated record refused");
+#endif
 		} else if (!sig_nonempty) {
 			CHECK(res != KSI_OK && pf == NULL, "C18.H1 an empty signature record is refused");
 		} else {
-			CHECK(VERIF_pki_sig_new_calls == sig_new0 + 1, "C18.H1 the signature bytes are handed to the PKI layer exactly once");
+			CHECK(VERIF_pki_sig_new_calls == 1, "C18.H1 the signature bytes are handed to the PKI layer exactly once");
 			CHECK((res == KSI_OK) == der_ok, "C18.H1 a well-structured file is accepted iff its signature bytes parse");
 		}
 	} else {
@@ -211,7 +184,7 @@ void harness(void) {
 		CHECK(pf != NULL && magic_ok, "C18.H1 acceptance yields a file object and implies the magic KSIPUBLF");
 		if (pf != NULL && !dup_nc_header) {
 			size_t sdl = 0; unsigned exp_sdl = 8;
-			for (unsigned i = 0; i < NREC; i++) if (i < sig_idx) exp_sdl += size[i];
+			for (unsigned i = 0; i < MAXREC; i++) if (i < sig_idx && (int)i < c->n) exp_sdl += size[i];
 			CHECK(KSI_PublicationsFile_getSignedDataLength(pf, &sdl) == KSI_OK && sdl == exp_sdl && exp_sdl == 8 + off[sig_idx < MAXREC ? sig_idx : 0],
 				"C18.H1 signedDataLength is the offset of the signature record (magic + all records before it)");
 			int same = (pf->raw != NULL && pf->raw != raw && pf->raw_len == total);
@@ -224,19 +197,25 @@ void harness(void) {
 			int v = KSI_PublicationsFile_verify(pf, ctx);
 			CHECK(VERIF_pki_last.count == 1 && VERIF_pki_last.data == pf->raw && VERIF_pki_last.data_len == exp_sdl && VERIF_pki_last.signature == pf->signature && v == VERIF_pki_last.verdict,
 				"C18.H1 verification passes exactly the bytes before the signature record and the parsed signature to the PKI layer");
-#if NREC >= 3
-			if (ncert + npub >= 1 && sig_idx == NREC - 1) WITNESS_POINT("file with records accepted");
+#ifdef W_RECS
+			if (ncert + npub >= 1) WITNESS_POINT("file with certificate or publication records accepted");
 #endif
-#if NREC >= 2
-			if (sig_idx == 1) WITNESS_POINT("minimal file header+signature accepted");
+#ifdef W_MIN
+			if (c->n == 2) WITNESS_POINT("minimal file header+signature accepted");
+#endif
+#ifdef W_UNK
+			if (c->n > (int)(2 + ncert + npub)) WITNESS_POINT("file with an unknown non-critical record accepted");
 #endif
 		}
 		KSI_PublicationsFile_free(pf);
 	} else {
 		CHECK(pf == NULL, "C18.H1 no file object on refusal");
 	}
-#if NREC == 0
-	WITNESS_POINT("file without records refused");
-#endif
 	verif_buf_free(raw, total);
+}
+
+void harness(void) {
+	VERIF_ctx_init();
+	for (unsigned ci = 0; ci < NCASES; ci++) run_case(VERIF_ctx, &cases[ci], ci);
+	WITNESS_POINT("all cases of the group executed");
 }
